@@ -953,3 +953,40 @@ def valid_unit(cls, relpath, needs_site):
 
 
 UNITS += [valid_unit('NlaIIIFragment', FN, True), valid_unit('CHICFragment', FC, True), valid_unit('Fragment', FF, False)]
+
+
+# ------------------------------------------------------------------------------ Molecule.is_valid: which molecules are marked rejected
+def molvalid_setup(eng):
+    eng.ghost.clear()
+    eng.ghost['reasons'] = []
+    eng.spec_env['GHOST'] = eng.ghost
+    QM = 'singlecellmultiomics.molecule.molecule.Molecule.'
+    mm, cv, mq = named(BOOL, 'is_multimapped'), named(BOOL, 'contains_valid_fragment'), named(INT, 'max_mapping_quality')
+    eng.spec_env.update({'MM': mm, 'CV': cv, 'MQ': mq})
+    eng.loader.call_hooks[QM + 'is_multimapped'] = lambda e, f, a, k, n: mm
+    eng.loader.call_hooks[QM + 'contains_valid_fragment'] = lambda e, f, a, k, n: cv
+    eng.loader.call_hooks[QM + 'get_max_mapping_qual'] = lambda e, f, a, k, n: mq
+    eng.loader.call_hooks[QM + 'set_rejection_reason'] = lambda e, f, a, k, n: e.ghost['reasons'].append(a[0])
+
+
+def molvalid_self(with_threshold):
+    def mk(eng, name):
+        return Obj('Molecule', {'min_max_mapping_quality': named(INT, 'min_max_mapping_quality') if with_threshold else None},
+                   info=eng.loader.classref(FM, 'Molecule'))
+    return mk
+
+
+MOL_VALID = '(not MM and (self.min_max_mapping_quality is None or MQ >= self.min_max_mapping_quality) and CV)'
+mol_is_valid = Contract(
+    PROP, FM + '::Molecule.is_valid', name='Molecule.is_valid',
+    params={'self': molvalid_self(True), 'set_rejection_reasons': 'bool'},
+    cases=[{}, {'self': molvalid_self(False)}],
+    setup=molvalid_setup,
+    ensures={
+        'valid_iff_uniquely_mapped_well_mapped_and_holding_a_valid_fragment': 'result == %s' % MOL_VALID,
+        'a_reason_is_written_iff_asked_for_and_invalid': 'len(GHOST["reasons"]) == (1 if (set_rejection_reasons and not %s) else 0)' % MOL_VALID,
+    },
+    raises={},
+    assumptions=['is_multimapped / contains_valid_fragment / get_max_mapping_qual: arbitrary verdicts (hooks)'],
+)
+UNITS.append(mol_is_valid)
